@@ -23,6 +23,7 @@ FLOORS = {'order_comparisons': 600, 'nontrivial_layers': 150,
           'reported_seed_reruns': 20, 'other_python_runs': 20,
           'par_runs': 30, 'layer_subset_runs': 30, 'resume_runs': 10,
           'list_par_runs': 30, 'list_subset_runs': 10,
+          'hostile_rng_runs': 40, 'hostile_rng_yields': 400,
           'shuffle_contract_evals': 300}
 BATCH_TIMEOUT = 400
 
@@ -169,6 +170,19 @@ def run_case(case):
         sopts = {'shuffle_seed': rep_seed}
         # same seed again, sequential
         compare(common.run_world(spec, None, sopts, root=root), 'seq2')
+        # same seed while another thread of the process uses the global
+        # random functions (and the GIL is handed over inside the shuffle)
+        if rng.random() < 0.4:
+            h0 = ztr_monitor.COUNTERS.get('shuffle.yields', 0)
+            as_list = rng.random() < 0.5
+            compare(common.run_world(
+                spec, None, sopts, root=root,
+                extra_argv=['--list-tests'] if as_list else [],
+                env_extra={'ZTR_SHUFFLE_HOSTILE': '1'}),
+                'list' if as_list else 'hostile-rng')
+            C('hostile_rng_runs')
+            C('hostile_rng_yields',
+              ztr_monitor.COUNTERS.get('shuffle.yields', 0) - h0)
         # listing
         compare(common.run_world(spec, None, sopts,
                                  extra_argv=['--list-tests'], root=root),
